@@ -147,7 +147,7 @@ def read_bytes(
     out = []
     for path, offset, length in zip(paths, offsets, lengths):
         token = tokenize(fs_token, delimiter, path, fs.ukey(path), compression, offset)
-        keys = [f"read-block-{o}-{token}" for o in offset]
+        keys = [f"read-block-{o}-{l}-{token}" for o, l in zip(offset, length)]
         values = [
             delayed_read(
                 OpenFile(fs, path, compression=compression),
